@@ -12,7 +12,7 @@ MCKinds == IF IOEnv.MCBIG = "1" THEN KindSet
            ELSE {"drop_semi", "drop_close", "trunc_kw", "num_huge", "word_to_num",
                  "lastword_array_neg", "open_comment", "nul", "dup", "del", "eof_mid"}
 P == [dsls |-> MCDsls, dict |-> [d \in 1..NSkel |-> IF d = 1 THEN {"@Law", "@Function"} ELSE IF d \in {6, 7} THEN {"@FlowRule", "@Theta"} ELSE {}],
-      all |-> {"@Law", "@Function", "@FlowRule", "@Theta", "@Integrator"}, insdsls |-> MCDsls,
+      all |-> {"@Law", "@Function", "@FlowRule", "@Theta", "@Integrator"}, insdsls |-> MCDsls, fordsls |-> MCDsls,
       kinds |-> MCKinds, shapes |-> {"none", "block"}, fshapes |-> {"eof"}, foreign |-> {"@Integrator"},
       maxmut |-> 2, nodsl |-> TRUE]
 Init == st = InitState
